@@ -46,7 +46,7 @@ def ordered(fields):
     return sorted(fields, key=lambda fd: fd["hasdef"])
 
 
-def build(style, fields, positional=False):
+def build(style, fields, positional=False, inherited=False):
     """positional (class style only): the signature is added with as_positional=True, which declares the REQUIRED
     parameters as positionals `g.<name>` instead of options `--g.<name>`: the same group for every channel but argv"""
     import dataclasses
@@ -77,6 +77,8 @@ def build(style, fields, positional=False):
                 spec.append((fd["name"], hint(fd["kind"]), dataclasses.field(default=default_of(fd))))
         G = dataclasses.make_dataclass("G", spec)
         G.__module__ = __name__
+        if inherited:   # a plain (undecorated) subclass of the dataclass: same fields, same generated __init__, still a dataclass
+            G = type("Tuned", (G,), {"__module__": __name__})
         p.add_argument("--g", type=G)
     elif style == "class":
         params = []
@@ -175,7 +177,7 @@ def run_case(case):
                 del os.environ[k]
         for style in STYLES:
             try:
-                p = build(style, fields, positional=(style == "class" and chan != "argv" and variant % 3 == 2))
+                p = build(style, fields, positional=(style == "class" and chan != "argv" and variant % 3 == 2), inherited=(style == "dataclass" and variant % 4 == 1))
             except Exception as ex:
                 outs.append({"style": style, "ok": False, "cfg": None, "escaped": "build:" + type(ex).__name__, "msg": str(ex)[:200]})
                 continue
